@@ -339,8 +339,23 @@ def v3_map_uses(ctx) -> None:
             pos = norm(loops[0].target.elts[0])
             ok = bool(PT.find_all(loops[0], "child_pos_to_parent_pos[_M_pos]", {"_M_pos": pos})) and bool(PT.find_all(f, "range(num_parent_params)"))
         if ok:
+            # what is written is a *target* position: an element of the table's entry for the source position, never the source position itself
+            tgt_vars = set()
+            for l2 in walk_local(loops[0]):
+                if isinstance(l2, ast.For) and isinstance(l2.target, ast.Name):
+                    it2 = D.expanded(f, l2.iter) if isinstance(l2.iter, ast.Name) else l2.iter
+                    if norm(it2) == f"child_pos_to_parent_pos[{pos}]":
+                        tgt_vars.add(l2.target.id)
+            writes = [w for w in walk_local(loops[0]) if isinstance(w, ast.Subscript) and isinstance(w.ctx, ast.Store) and isinstance(w.value, ast.Name)]
+            wrong = [w for w in writes if not (isinstance(w.slice, ast.Name) and w.slice.id in tgt_vars)]
+            if writes and wrong:
+                ok = False
+                ctx.violation("V3", wrong[0], f"{cname}.param_map writes `{norm(wrong[0])}`: the position written must be one of the target positions child_pos_to_parent_pos[{pos}] "
+                              f"(found index `{norm(wrong[0].slice)}`); written at the source position, a statistic that the parent lists in another place than the child lands "
+                              "on the wrong statistic")
+        if ok:
             ctx.ok("V3", f"{cname}.param_map reads the table at the source position and writes target positions")
-        else:
+        elif not any(v_.rule == "V3" and v_.function.endswith(f"{cname}.param_map") for v_ in ctx.violations):
             ctx.violation("V3", f, f"{cname}.param_map must index the table by the source position and size its result by the target count", construct=f"{cname}.param_map")
 
 
@@ -1098,3 +1113,39 @@ def v15_map_kind_per_constructor(ctx) -> None:
                                   "parent statistics meet in one child statistic the value comes out multiplied")
     if n < 4:
         ctx.floor("V15", 99)
+
+
+def v16_injectivity_is_about_values(ctx) -> None:
+    """A reverse rule can be an equivalence only if no two parent statistics are poured into
+    one child statistic: the parameter dictionaries are injective, i.e. their *values* are
+    pairwise distinct.  The same test on the dictionary itself (its keys) is always true."""
+    P = ctx.P
+    n = 0
+    for cls in P.subclasses(P.need_class("Constructor"), strict=False):
+        m = cls.methods.get("can_be_equivalent")
+        if m is None:
+            continue
+        for c in walk_local(m.node):
+            if not (isinstance(c, ast.Compare) and len(c.ops) == 1 and isinstance(c.ops[0], (ast.Eq, ast.NotEq))):
+                continue
+            sides = [c.left, c.comparators[0]]
+            lens = [s_ for s_ in sides if isinstance(s_, ast.Call) and norm(s_.func) == "len" and len(s_.args) == 1]
+            if len(lens) != 2:
+                continue
+            inner = []
+            for s_ in lens:
+                a = s_.args[0]
+                if isinstance(a, ast.Call) and norm(a.func) in ("set", "frozenset") and len(a.args) == 1:
+                    a = a.args[0]
+                inner.append(a)
+            if norm(inner[0]) != norm(inner[1]):
+                continue
+            n += 1
+            e = inner[0]
+            if isinstance(e, ast.Call) and isinstance(e.func, ast.Attribute) and e.func.attr == "values":
+                ctx.ok("V16", f"{m.qualname}: the dictionaries are tested for distinct values")
+            else:
+                ctx.violation("V16", c, f"{m.qualname} tests `{norm(c)[:70]}`: the keys of a dictionary are distinct by construction, so this is always true -- a reverse rule that pours "
+                              "two parent statistics into one child statistic is declared a possible equivalence, filed as such and preferred to a forward rule")
+    if n < 1:
+        ctx.floor("V16", 99)
